@@ -417,13 +417,13 @@ Section Closed.
   Proof.
     intros H. unfold r_op_ir, r_where_g. destruct o; cbn [op_ok] in H; cbv zeta; cbn [fst snd].
     - destruct H as (Hg & Hw & Ht & Hr & Ho). split.
-      + oks; try apply Ok_binop_path; apply Ok_with_ref; assumption.
-      + oks; try (apply Ok_with_ref; assumption).
-        apply Ok_ufcs; oks; try apply Ok_binop_path; try (apply Ok_with_ref; assumption);
+      + oks; try apply Ok_binop_path; first [apply Ok_with_ref_ty | apply Ok_ref_target | apply Ok_with_ref]; assumption.
+      + oks; try (first [apply Ok_with_ref_ty | apply Ok_ref_target | apply Ok_with_ref]; assumption).
+        apply Ok_ufcs; oks; try apply Ok_binop_path; try (first [apply Ok_with_ref_ty | apply Ok_ref_target | apply Ok_with_ref]; assumption);
           apply Ok_change_owned; oks.
     - destruct H as (Hg & Hw & Ht & Hr). split.
       + oks; apply Ok_binop_assign_path.
-      + oks. apply Ok_ufcs; oks; try apply Ok_binop_path; try (apply Ok_with_ref; assumption).
+      + oks. apply Ok_ufcs; oks; try apply Ok_binop_path; try (first [apply Ok_with_ref_ty | apply Ok_ref_target | apply Ok_with_ref]; assumption).
         apply Ok_change_owned; oks.
     - destruct H as (Hg & Hw & Ht & Hr). split.
       + oks; apply Ok_binop_path.
